@@ -10,7 +10,39 @@ import (
 	"verif/engine/internal/props"
 )
 
+func debugFn(keys []string) {
+	w, err := core.Load()
+	if err != nil {
+		fmt.Println("load:", err)
+		os.Exit(2)
+	}
+	rep := core.NewReport("DBG", "quick", 0)
+	props.RunJobs(w, rep, props.SafetyJobs(w, rep, keys))
+	for f, r := range rep.Aborted {
+		fmt.Println("ABORTED", f, ":", r)
+	}
+	for _, o := range rep.Outcomes {
+		if o.Status != "discharged" {
+			if o.Script != "" {
+				os.WriteFile("/tmp/dbg.smt2", []byte(o.Script), 0o644)
+			}
+			fmt.Printf("%-10s %s [%s] paths=%d %s (%s) %.2fs\n   model=%v\n", o.Status, o.Name, o.Backend, o.Members, o.Info, o.Pos, o.Seconds, o.Model)
+		}
+	}
+	n := 0
+	for _, o := range rep.Outcomes {
+		if o.Status == "discharged" {
+			n++
+		}
+	}
+	fmt.Printf("%d outcomes, %d discharged\n", len(rep.Outcomes), n)
+}
+
 func main() {
+	if len(os.Args) >= 3 && os.Args[1] == "fn" {
+		debugFn(os.Args[2:])
+		return
+	}
 	if len(os.Args) < 3 || os.Args[1] != "check" {
 		fmt.Fprintln(os.Stderr, "usage: govc check <Cxx> [--tier quick|thorough]")
 		os.Exit(2)
